@@ -1901,6 +1901,16 @@ func main() {
 		// the sequence's view has siblings opened while it is in use; foreign readers share its handle
 		{"new 2", "next", "sibling t", "next", "next", "sibling s2", "crash idle", "new 3", "next", "mark"},
 		{"new 1", "next", "parfr 4 1500", "next", "mark"},
+		// wrapper stacks: a debug layer without a callback / with a filter that leaves Set (Get) out must still forward the
+		// call (seeded change C07-r6-3), also nested, under flushkv and under a realm view made through the wrappers
+		{"cfg stack view,dbgnil", "new 2", "next", "next", "next", "crash idle", "new 2", "next", "mark"},
+		{"cfg stack root,dbgf:8,flush,realm:7a", "new 1", "next", "release", "next", "crash write", "new 3", "next", "mark"},
+		{"cfg stack view,dbgnilf:16,dbgf:0,dbg", "cfg fault close", "new 3", "next", "fnext set", "next", "frelease", "release", "new 1", "next"},
+		// several sequences over one store: requests of other keys inside a store call of a request (on top of the stack /
+		// inside the debug callback / with the caller parked) and concurrently (seeded change C07-r6-2: pooled value buffer)
+		{"cfg stack view,dbg", "new 10", "k2 new 10", "k2 next", "next", "release", "nest dset next / k2 release / k2 next", "crash idle", "new 10", "next", "k2 next", "mark", "k2 mark"},
+		{"new 10", "k2 new 3", "k3 new 1", "nestg set next / k2 next / k3 next", "nest set k2 release / next / k3 next", "nest get k3 crash write / release / k2 next", "k3 new 2", "k3 next", "next", "k2 next"},
+		{"new 5", "k2 new 3", "k3 new 1", "k4 new 2", "parm 2 13", "crash idle", "new 2", "next", "k2 next", "k3 next", "k4 release", "k4 new 1", "k4 next"},
 	}
 	for _, c := range corpus {
 		runCase(r, 0, c)
